@@ -22,7 +22,7 @@ from collections import Counter, defaultdict
 
 from .core import H, rng_for, digest, sha, jdump, HarnessError
 from . import gen_sampler, gen_mol
-from .gen_sampler import norm_key, is_complement, complements
+from .gen_sampler import norm_key, is_complement, complements, materialise
 
 
 # ---------------------------------------------------------------------------
@@ -103,8 +103,8 @@ def generate(run_seed, prop, tier="quick"):
 # ---------------------------------------------------------------------------
 
 def _norm_tables(cfg):
-    poly = {norm_key(k): v for k, v in cfg["polymer_reactivities"].items()}
-    frag = {norm_key(k): {norm_key(k2): v2 for k2, v2 in row.items()} for k, row in cfg["fragment_reactivities"].items()}
+    poly = {norm_key(k): float(materialise(v)) for k, v in cfg["polymer_reactivities"].items()}
+    frag = {norm_key(k): {norm_key(k2): float(materialise(v2)) for k2, v2 in row.items()} for k, row in cfg["fragment_reactivities"].items()}
     term = {norm_key(k) for k in cfg["terminal_bonds"]}
     return poly, frag, term
 
@@ -476,9 +476,9 @@ def run_history(scenario, only=None):
 
     def construct(idx, seed):
         cfg = sc["configs"][idx]
-        kwargs = {"polymer_reactivities": copy.deepcopy(cfg["polymer_reactivities"]), "all_atom": cfg["all_atom"], "seed": seed}
+        kwargs = {"polymer_reactivities": materialise(copy.deepcopy(cfg["polymer_reactivities"])), "all_atom": cfg["all_atom"], "seed": seed}
         if cfg["fragment_reactivities"]:
-            kwargs["fragment_reactivities"] = copy.deepcopy(cfg["fragment_reactivities"])
+            kwargs["fragment_reactivities"] = materialise(copy.deepcopy(cfg["fragment_reactivities"]))
         if cfg["terminal_bonds"]:
             kwargs["terminal_bonds"] = list(cfg["terminal_bonds"])
         if cfg["fragment_masses"]:
